@@ -1,4 +1,5 @@
 CONSTANTS
+  HeadVariants = {3}
   PixVariants = {2, 5}
   WithPreamble = {TRUE}
   Files <- AllFiles
